@@ -315,6 +315,17 @@ func (o outcome) String() string {
 	return "ok"
 }
 
+var timing = map[string]time.Duration{}
+var timingOn = os.Getenv("VERIF_C05_TIMING") != ""
+
+func timed(name string) func() {
+	if !timingOn {
+		return func() {}
+	}
+	t := time.Now()
+	return func() { timing[name] += time.Since(t) }
+}
+
 func call(f func() error) (o outcome) {
 	logBuf.Reset()
 	defer func() {
@@ -401,6 +412,7 @@ func runCase(dir string, wl *workload, base []byte, id caseID) verdict {
 	observe := func(file, what string) (string, *verdict) {
 		var obs *drive.Obs
 		o := call(func() error {
+			defer timed("reopen+observe")()
 			db, err := db19.OpenDb(file, stor.Update, true)
 			if err != nil {
 				return err
@@ -429,7 +441,7 @@ func runCase(dir string, wl *workload, base []byte, id caseID) verdict {
 				what, want, wl.Ends[want], id.L, shows, strings.Join(d, "; "))
 			return "", &v
 		}
-		if o := call(func() error { return db19.CheckDatabase(file, true) }); !o.ok() {
+		if o := call(func() error { defer timed("fullcheck")(); return db19.CheckDatabase(file, true) }); !o.ok() {
 			v := fail("", "%s: CheckDatabase(full): %s", what, o)
 			return "", &v
 		}
@@ -439,6 +451,7 @@ func runCase(dir string, wl *workload, base []byte, id caseID) verdict {
 	// (a) open
 	var openErr error
 	op := call(func() error {
+		defer timed("open")()
 		db, err := db19.OpenDb(file, stor.Update, true)
 		if err == nil {
 			db.Close()
@@ -483,7 +496,7 @@ func runCase(dir string, wl *workload, base []byte, id caseID) verdict {
 		summary = "fatal"
 	}
 	// (b) check + repair
-	ck := call(func() error { return db19.CheckDatabase(fileC, false) })
+	ck := call(func() error { defer timed("check")(); return db19.CheckDatabase(fileC, false) })
 	if ck.Runtime || ck.Panic != "" {
 		class := ""
 		if emptyFile && strings.Contains(ck.Panic, "index out of range [0] with length 0") {
@@ -499,6 +512,7 @@ func runCase(dir string, wl *workload, base []byte, id caseID) verdict {
 	}
 	var repMsg string
 	rp := call(func() error {
+		defer timed("repair")()
 		var err error
 		repMsg, err = db19.Repair(fileR, openErr)
 		return err
@@ -571,13 +585,28 @@ func executorMain(jobFile string) {
 		os.Exit(9)
 	}
 	w := bufio.NewWriter(proto)
+	t0 := time.Now()
+	defer func() {
+		if timingOn {
+			f, _ := os.OpenFile("/tmp/c05timing.txt", os.O_APPEND|os.O_CREATE|os.O_WRONLY, 0o644)
+			fmt.Fprintln(f, len(j.Cases), "cases", time.Since(t0), timing)
+			f.Close()
+		}
+	}()
 	for i, id := range j.Cases {
 		fmt.Fprintf(w, "S %d\n", i)
 		w.Flush()
+		done := timed("case")
 		v := runCase(j.Dir, j.Workload, base, id)
+		done()
 		vb, _ := json.Marshal(v)
 		fmt.Fprintf(w, "R %d %s\n", i, vb)
 		w.Flush()
+	}
+	if timingOn {
+		f, _ := os.OpenFile("/tmp/c05timing.txt", os.O_APPEND|os.O_CREATE|os.O_WRONLY, 0o644)
+		fmt.Fprintln(f, len(j.Cases), "cases", time.Since(t0), timing)
+		f.Close()
 	}
 	os.Exit(0)
 }
@@ -608,7 +637,7 @@ func (r *runner) runBatch(wl *workload, cases []caseID) {
 		}
 		exe, _ := os.Executable()
 		cmd := exec.Command(exe)
-		cmd.Env = append(os.Environ(), "VERIF_C05_EXEC="+jobFile, "GOMAXPROCS=2")
+		cmd.Env = append(os.Environ(), "VERIF_C05_EXEC="+jobFile, "GOMAXPROCS=1")
 		cmd.ExtraFiles = []*os.File{pw}
 		var stderr bytes.Buffer
 		cmd.Stderr = &stderr
@@ -686,6 +715,29 @@ func (r *runner) runBatch(wl *workload, cases []caseID) {
 	}
 }
 
+func nearBoundary(wl *workload, L int64) bool {
+	near := func(x int64) bool { return L >= x-44 && L <= x+12 }
+	if L < 64 || near(wl.Size) {
+		return true
+	}
+	for _, e := range wl.Ends {
+		if near(e) {
+			return true
+		}
+	}
+	for _, m := range wl.Markers {
+		if near(m) {
+			return true
+		}
+	}
+	for p := int64(4096); p <= wl.Size+4096; p += 4096 {
+		if near(p) {
+			return true
+		}
+	}
+	return false
+}
+
 func envInt(name string, def int) int {
 	var n int
 	if _, err := fmt.Sscanf(os.Getenv(name), "%d", &n); err == nil && n > 0 {
@@ -748,6 +800,12 @@ func run(c *lib.Ctx) {
 				continue
 			}
 			for t := range tailNames {
+				// quick tier: the full tail alphabet only near the boundaries (file
+				// start, state record ends, clean-close ends, 4 KiB page ends, file
+				// end); elsewhere absent / 0xFF fill / state magic alone
+				if c.Quick() && !nearBoundary(wl, L) && t != 0 && t != 2 && t != 5 {
+					continue
+				}
 				cases = append(cases, caseID{Workload: wl.Name, L: L, Tail: t, TailName: tailNames[t]})
 			}
 		}
